@@ -13,9 +13,9 @@ UNDECIDED = ['texts longer than the bound', 'decoding with only one of the two p
 def jobs():
     return [
         Job('decode_text_bounded', 'parser_decode_h.c', entry='harness_decode_text', tus=['parser.c'], functions=['decode_text'], plain=True, no_loop_contracts=True,
-            defines={'MAXD': 4}, thorough_defines={'MAXD': 6}, unwind=7,
+            defines={'MAXD': 3}, thorough_defines={'MAXD': 5}, unwind=6,
             unwindset=['harness_decode_text.1:170', 'harness_decode_text.2:170', 'harness_decode_text.3:170', 'harness_decode_text.4:170'],
-            bounded='all texts of 1..MAXD (4 quick / 6 thorough) code units, protocols both enabled or both disabled; every loop unwound completely (unwinding assertions on; 170 for the constant table-initialisation loops of INIT_V2_SCANNER, 7 elsewhere)',
+            bounded='all texts of 1..MAXD (3 quick / 5 thorough) code units, protocols both enabled or both disabled; every loop unwound completely (unwinding assertions on; 170 for the constant table-initialisation loops of INIT_V2_SCANNER, 7 elsewhere)',
             reach=['decoded-shorter', 'verbatim'], min_obligations=30, timeout=1800, mem_gb=44, text_ui=True,
             trusted=['models of cif_value_init_char / cif_value_init / u_strncpy / u_strncmp in the harness', 'reference decoder r_decode() (harness/parser_decode_h.c), written from the CIF 2.0 text-field protocols'],
             clauses=['prefix recognised and stripped exactly as the protocol says (incl. a last line that is only the prefix)', 'folded lines joined, backslash + blanks + terminator removed',
